@@ -1876,6 +1876,9 @@ func (f *fctx) loopEnv(h *ssa.BasicBlock, from *ssa.BasicBlock, st *State) *Env 
 		if strings.HasPrefix(k, "C$") || strings.HasPrefix(k, "M$") {
 			if n, ok := f.cellNames()[k]; ok {
 				if _, exists := vars[n]; !exists {
+					if t.Ty == nil {
+						t.Ty = f.cellTypes()[k]
+					}
 					vars[n] = t
 				}
 			}
@@ -1924,6 +1927,22 @@ func rangeIndexBound(h *ssa.BasicBlock) ssa.Value {
 }
 
 // cellNames maps state keys of address-taken locals and maps to source names.
+// cellTypes: Go types of the named local cells (maps and address-taken variables).
+func (f *fctx) cellTypes() map[string]types.Type {
+	out := map[string]types.Type{}
+	for _, b := range f.fn.Blocks {
+		for _, ins := range b.Instrs {
+			switch ins := ins.(type) {
+			case *ssa.Alloc:
+				out["C$"+f.pfx+ins.Name()] = ins.Type().(*types.Pointer).Elem()
+			case *ssa.MakeMap:
+				out["M$"+f.pfx+ins.Name()] = ins.Type()
+			}
+		}
+	}
+	return out
+}
+
 func (f *fctx) cellNames() map[string]string {
 	out := map[string]string{}
 	for _, b := range f.fn.Blocks {
